@@ -715,11 +715,14 @@ func (f *HashFile) UnmarshalText(b []byte) error {
 	sc.Scan()
 	sum := strings.TrimPrefix(sc.Text(), "h1:")
 	for sc.Scan() {
-		li := strings.SplitN(sc.Text(), "h1:", 2)
-		if len(li) != 2 {
+		// The hash is base64 encoded and cannot contain the separator,
+		// but the file name may. Hence, split on its last occurrence.
+		line := sc.Text()
+		idx := strings.LastIndex(line, "h1:")
+		if idx < 0 {
 			return ErrChecksumFormat
 		}
-		*f = append(*f, struct{ N, H string }{strings.TrimSpace(li[0]), li[1]})
+		*f = append(*f, struct{ N, H string }{strings.TrimSpace(line[:idx]), line[idx+3:]})
 	}
 	if sum != f.Sum() {
 		return ErrChecksumMismatch
